@@ -6,6 +6,7 @@ import (
 	"flag"
 	"fmt"
 	"os"
+	"time"
 
 	"verif/harness/fam"
 )
@@ -16,6 +17,16 @@ func usage() {
 }
 
 func main() {
+	// the models' process-local zone is UTC unless VERIF_TZ names another one (trace direction)
+	time.Local = time.UTC
+	if tz := os.Getenv("VERIF_TZ"); tz != "" {
+		loc, err := time.LoadLocation(tz)
+		if err != nil {
+			fmt.Fprintln(os.Stderr, "fv: VERIF_TZ:", err)
+			os.Exit(2)
+		}
+		time.Local = loc
+	}
 	if len(os.Args) < 2 {
 		usage()
 	}
